@@ -340,7 +340,7 @@ func sortedMap(m map[string]string) []string {
 }
 
 func c14Child(r *ev.Run, batch int) {
-	n := r.N(25, 320)
+	n := r.N(25, 640)
 	for hi := 0; hi < n; hi++ {
 		p := prng.Derive(r.Seed, "C14", batch, hi)
 		r.LogCase(fmt.Sprintf("C14 batch=%d history=%d", batch, hi))
